@@ -29,7 +29,7 @@ import (
 func canon(pk *packages.Package, fd *ast.FuncDecl, n ast.Node) string {
 	info := pk.TypesInfo
 	// ---- inline straight-line helpers (temporarily, restored before returning)
-	alias := map[*ast.Ident]ast.Expr{}      // use of a helper parameter (in an inlined copy of the helper's body) → argument
+	alias := map[*ast.Ident]ast.Expr{}    // use of a helper parameter (in an inlined copy of the helper's body) → argument
 	origOf := map[*ast.Ident]*ast.Ident{} // identifier of an inlined copy → the identifier it was copied from
 	type saved struct {
 		list *[]ast.Stmt
